@@ -257,10 +257,11 @@ func gen(r *hx.Rng, n int, tier string) []string {
 			out = append(out, kgLine(r, p, "+kg"))
 		}
 	}
-	// C. signing compared byte for byte: deterministic and randomized, 128f first
-	for i, p := range []*pset{setByName("SHAKE-128f"), setByName("SHA2-128f")} {
+	// C. signing compared byte for byte (the corpus holds the SHA2-128f known answer)
+	{
+		p := setByName("SHAKE-128f")
 		if spend(p.cSg) {
-			out = append(out, sgLine(r, p, i == 0 || r.Chance(50)))
+			out = append(out, sgLine(r, p, r.Chance(60)))
 		}
 	}
 	// D. through the Tink API (keyset handle, signature.NewSigner / NewVerifier)
@@ -280,18 +281,35 @@ func gen(r *hx.Rng, n int, tier string) []string {
 			out = append(out, fmt.Sprintf("C16|ts|%s|%s|%d|%s|%s|%s|+tink-sign", q.name, v, id, hx.H(qb.sk), hx.H(msgOf(r)), hx.H(r.Bytes(q.n))))
 		}
 	}
-	// E. one of the larger f sets signs deterministically
+	// E. one big case that still fits the budget: a larger f set signs
+	// deterministically, or an s set derives its public key from the seeds
 	{
-		p := hx.PickS(r, []*pset{setByName("SHAKE-192f"), setByName("SHA2-192f"), setByName("SHAKE-256f"), setByName("SHA2-256f")})
-		if spend(p.cSg) {
-			out = append(out, sgLine(r, p, true))
+		type big struct {
+			p  *pset
+			kg bool
 		}
-	}
-	// F. one s set: public key from secret seeds
-	{
-		p := hx.PickS(r, small)
-		if spend(p.cKg) {
-			out = append(out, kgLine(r, p, "+kg"))
+		var opts []big
+		for _, p := range fast {
+			if p.n > 16 {
+				opts = append(opts, big{p, false})
+			}
+		}
+		for _, p := range small {
+			opts = append(opts, big{p, true})
+		}
+		for i := len(opts) - 1; i > 0; i-- {
+			j := r.Intn(i + 1)
+			opts[i], opts[j] = opts[j], opts[i]
+		}
+		for _, o := range opts {
+			if o.kg && spend(o.p.cKg) {
+				out = append(out, kgLine(r, o.p, "+kg"))
+				break
+			}
+			if !o.kg && spend(o.p.cSg) {
+				out = append(out, sgLine(r, o.p, true))
+				break
+			}
 		}
 	}
 	// G. the rest of the budget: more of everything, s-set signing when it fits (thorough tier)
